@@ -180,7 +180,7 @@ async def _run_proc(cmd, timeout):
     return out, time.time() - t0
 
 
-async def _solve_async(pairs, timeout, jobs, tmpdir, variants=None):
+async def _solve_async(pairs, timeout_all, jobs, tmpdir, variants=None):
     variants = variants or {}
     import asyncio
     sem = asyncio.Semaphore(jobs)
@@ -189,6 +189,7 @@ async def _solve_async(pairs, timeout, jobs, tmpdir, variants=None):
         if txt is None:
             return
         async with sem:
+            timeout = min(timeout_all, 3) if getattr(ob, "expect", None) == "sat" else timeout_all   # covers: model finding is cheap or hopeless
             path = os.path.join(tmpdir, f"q{i}.smt2")
             with open(path, "w") as f:
                 f.write(txt.replace("(check-sat)", "(check-sat)\n(get-model)"))
